@@ -1,11 +1,13 @@
 package wire
 
 import (
+	"bufio"
 	"bytes"
 	"errors"
 	"fmt"
 	"io"
 	"math/rand"
+	"strings"
 
 	"github.com/gobwas/ws"
 	"github.com/gobwas/ws/wsflate"
@@ -40,6 +42,42 @@ type WOp struct {
 	Chunks []int // ReadFrom: sizes the source hands out per Read
 	SrcErr bool  // ReadFrom: source ends with an error instead of EOF
 	SrcEnd bool  // ReadFrom: the source returns its last bytes together with the end condition (n>0, err)
+	Via    int   // Write: how the application hands the bytes over (0 w.Write; 1.. through a std helper, see writeVia)
+}
+
+var viaNames = [...]string{"", "io.WriteString", "io.Copy<-strings.Reader", "io.Copy<-bytes.Reader", "bytes.Buffer.WriteTo", "fmt.Fprintf", "bufio.Writer+Flush"}
+
+// writeVia hands data to w the way applications do through the standard
+// library, whose helpers look for optional interfaces on w (io.StringWriter,
+// io.ReaderFrom, io.ByteWriter...). On a Writer that only has Write and
+// ReadFrom every one of these is one Write(data) call.
+func writeVia(w io.Writer, via int, data []byte) (int, error) {
+	switch via {
+	case 1:
+		return io.WriteString(w, string(data))
+	case 2:
+		// strings.Reader.WriteTo -> io.WriteString(w, s)
+		n, err := io.Copy(w, strings.NewReader(string(data)))
+		return int(n), err
+	case 3:
+		// bytes.Reader.WriteTo -> w.Write
+		n, err := io.Copy(w, bytes.NewReader(data))
+		return int(n), err
+	case 4:
+		n, err := bytes.NewBuffer(data).WriteTo(w)
+		return int(n), err
+	case 5:
+		return fmt.Fprintf(w, "%s", data)
+	case 6:
+		// A bufio.Writer at least as large as the data in front: Flush is one
+		// Write of everything.
+		bw := bufio.NewWriterSize(w, len(data)+16)
+		bw.Write(data)
+		before := bw.Buffered()
+		err := bw.Flush()
+		return before - bw.Buffered(), err
+	}
+	return w.Write(data)
 }
 
 func (o WOp) String() string {
@@ -47,6 +85,9 @@ func (o WOp) String() string {
 	switch o.Kind {
 	case WOpWrite, WOpThrough, WOpGrow, WOpSetExt:
 		s += fmt.Sprintf("(%d)", o.N)
+		if o.Via != 0 {
+			s += " via " + viaNames[o.Via]
+		}
 	case WOpReadFrom, WOpCopy:
 		s += fmt.Sprintf("(%d in %d reads, srcErr=%v, endWithData=%v)", o.N, len(o.Chunks), o.SrcErr, o.SrcEnd)
 	}
@@ -235,6 +276,10 @@ func drawHistory(r *eng.Run, cfg WCfg, maxOps int) []WOp {
 			op.N = r.T.Int(sim.LCfg, 16)
 		case WOpWrite, WOpThrough:
 			op.N = drawN()
+			if op.Kind == WOpWrite && op.N > 0 && r.T.Chance(sim.LHist, 1, 5) {
+				op.Via = 1 + r.T.Int(sim.LHist, len(viaNames)-1)
+				r.Probe("write_through_a_std_helper")
+			}
 		case WOpGrow:
 			op.N = drawN()
 		case WOpReadFrom, WOpCopy:
@@ -395,6 +440,8 @@ func ExecHistory(r *eng.Run, wr *WRun, seed uint32, check func(step int)) {
 			var k int
 			if op.Kind == WOpThrough {
 				k, ob.Err = w.WriteThrough(data)
+			} else if op.Via != 0 {
+				k, ob.Err = writeVia(w, op.Via, data)
 			} else {
 				k, ob.Err = w.Write(data)
 			}
